@@ -674,7 +674,11 @@ def _expr_at(rng, inst, kinds, allow_off=True):
 
 def gen_run_scenario(rng, idx):
     """-> scenario dict without the subsystem"""
-    kind = ["now", "now_period", "tod", "cron_min", "mixed", "dst_cron", "dst_hourly", "sun", "startup_only", "full", "window"][idx % 11]
+    kinds = ["now", "clock_step2", "now_period", "tod", "clock_slew", "cron_min", "mixed", "dst_cron", "clock_step1", "dst_hourly", "sun",
+             "startup_only", "full", "window", "clock_slew_step"]
+    kind = kinds[idx % len(kinds)]
+    if kind.startswith("clock"):
+        return gen_clock_scenario(rng, kind)
     base = rng.choice(DST_BASES if kind.startswith("dst") else RUN_BASES)
     if kind not in ("dst_cron", "dst_hourly") and rng.random() < 0.5:
         base = base + dt.timedelta(seconds=rng.randint(0, 3000))
@@ -757,6 +761,43 @@ def gen_run_scenario(rng, idx):
             "base_utc": local_to_utc_us(base), "horizon": horizon + 0.5, "lead": 1.0}
 
 
+def gen_clock_scenario(rng, kind):
+    """The wall clock falls behind the event loop's monotonic clock during a wait: set back once, set back twice within the
+    same wait (the second time while the remainder of the first is being slept), slewed, or both."""
+    base = rng.choice([D(2024, 3, 4, 12, 0), D(2025, 6, 15, 8, 30), D(2024, 12, 31, 23, 0), D(2024, 7, 1, 17, 40)])
+    p_s = rng.choice([600, 600, 300])
+    start = base + dt.timedelta(seconds=p_s)
+    es = mk_expr(rng, start, base, base, kinds=["full"], allow_off=False)
+    ptxt, pam, _ = mk_amount(rng, p_s * 10 ** 6)
+    specs = [{"kind": "period", "str": f"period({es['str']}, {ptxt})", "s": es, "iv": pam, "e": None}]
+    if rng.random() < 0.6:
+        eo = mk_expr(rng, base + dt.timedelta(seconds=p_s * 2 + p_s // 2), base, base, kinds=["full", "none"], allow_off=False)
+        specs.append({"kind": "once", "str": f"once({eo['str']})", "e": eo})
+    n_inst = 3
+    steps = []
+    ppm = 0
+    if kind in ("clock_slew", "clock_slew_step"):
+        ppm = rng.choice([100, 500, 1000])
+    if kind != "clock_slew":
+        k = rng.choice([1, 2])                     # the k-th period instant is the one waited for
+        w_t = p_s * k                              # its elapsed seconds on a perfect clock (no earlier steps)
+        d1 = rng.choice([10, 30, 45, 120])
+        lo = p_s * (k - 1) + d1 + 20
+        m1 = rng.randint(max(lo, 5), w_t - 25)
+        steps.append([m1 * 10 ** 6, -d1 * 10 ** 6])
+        if kind in ("clock_step2", "clock_slew_step"):
+            # while the remainder d1 is being slept (monotonic w_t .. w_t + d1) the clock is set back again
+            d2 = rng.choice([150, 250000, 2 * 10 ** 6, 7 * 10 ** 6])
+            at = w_t * 10 ** 6 + int(d1 * 10 ** 6 * rng.choice([0.3, 0.5, 0.7]))
+            if ppm:
+                at += w_t * ppm + 10 ** 6      # the slewed clock reaches the instant later
+            steps.append([at, -d2])
+    total_back = -sum(d for _a, d in steps) // 10 ** 6 + 1
+    horizon = p_s * n_inst + p_s // 3 + total_back + (p_s * n_inst * ppm) // 10 ** 6
+    return {"specs": specs, "startup": rng.random() < 0.3, "shutdown": rng.random() < 0.3, "noargs": False, "startup_pos": 0,
+            "base_utc": local_to_utc_us(base), "horizon": horizon + 0.5, "lead": 1.0, "ppm": ppm, "steps": steps}
+
+
 def mk_spec_now_once(rng, off):
     e = mk_now_expr(rng, off)
     return {"kind": "once", "str": f"once({e['str']})", "e": e}
@@ -775,7 +816,8 @@ class RunStream(Stream):
 
     name = "run"
     rule = ("@time_trigger functions (once(now+x), period(now+a, p[, now+b]), once(h:m:s), once(full date), daily period windows, "
-            "cron every n minutes, daily/hourly cron across the America/New_York DST changes of 2024/2025, sunrise/sunset, "
+            "cron every n minutes, daily/hourly cron across the America/New_York DST changes of 2024/2025, sunrise/sunset, wall clock "
+            "set back once / twice within one wait / slewed 100-1000 ppm relative to the loop's monotonic clock, "
             "'startup'/'shutdown' entries and the bare decorator; lists of 1-3) defined in a real HomeAssistant on the virtual "
             "clock whose wall clock is derived from virtual UTC through zoneinfo; each scenario under the legacy and the default "
             "decorator subsystem; every run is recorded with its virtual time and trigger_time, every timer_trigger_next call "
@@ -790,7 +832,7 @@ class RunStream(Stream):
     shard_size = 40
 
     def budget(self, tier):
-        return 56 if tier == "quick" else 600
+        return 60 if tier == "quick" else 600
 
     def prelude(self, ctx, findings, witness_terms):
         # D62 is measured on its witness; the switches of the "next" stream follow their listed status
@@ -837,27 +879,37 @@ class RunStream(Stream):
                 bad = True
                 continue
             runs.append("(%s, %s)" % (q.Z(u), q_rkind(k)))
-        calls = q.lst("(%s, %s)" % (q.Z(c["now"]), q_nobs(c)) for c in obs["calls"])
+        calls = q.lst("(%s, %s, %s)" % (q.Z(c["mono"]), q.Z(c["now"]), q_nobs(c)) for c in obs["calls"])
         return ("{| rc_legacy := %s; rc_specs := %s; rc_startup := %s; rc_shutdown := %s; rc_su := %s; rc_def_utc := %s; "
-                "rc_remove_utc := %s; rc_sun := %s; rc_calls := %s; rc_runs := %s; rc_wellformed := %s |}") % (
+                "rc_remove_utc := %s; rc_sun := %s; rc_calls := %s; rc_runs := %s; rc_wellformed := %s; "
+                "rc_base := %s; rc_ppm := %s; rc_steps := %s |}") % (
             q.boolean(case["legacy"]), q.lst(q_spec(s) for s in case["specs"]), q.boolean(case["startup"] or case["noargs"]),
             q.boolean(case["shutdown"] and not case["noargs"]), q.Z(su), q.Z(obs["def_utc"]), q.Z(obs["remove_utc"]),
-            q_sun(obs["sun"]), calls, q.lst(runs), q.boolean(not bad))
+            q_sun(obs["sun"]), calls, q.lst(runs), q.boolean(not bad),
+            q.Z(obs["base"]), q.Z(obs["ppm"]), q.lst("(%s, %s)" % (q.Z(a), q.Z(d)) for a, d in obs["steps"]))
 
     def key(self, case):
-        return f"{case['legacy']}|" + "|".join(s["str"] for s in case["specs"]) + f"|{case['base_utc']}|{case['horizon']}|{case['startup']}{case['shutdown']}{case['noargs']}"
+        return (f"{case['legacy']}|" + "|".join(s["str"] for s in case["specs"]) + f"|{case['base_utc']}|{case['horizon']}|"
+                f"{case['startup']}{case['shutdown']}{case['noargs']}|{case.get('ppm', 0)}|{case.get('steps', [])}")
 
     def nontrivial(self, case, obs):
         return any(not isinstance(k, str) for _u, k, _t in obs["runs"])
 
     def kind(self, case, obs):
         ks = "+".join(sorted({s["kind"] for s in case["specs"]})) or "startup-only"
-        return ("legacy" if case["legacy"] else "default") + ":" + ks
+        clock = ""
+        if case.get("steps"):
+            clock += f"/wall set back x{len(case['steps'])}"
+        if case.get("ppm"):
+            clock += "/slewed"
+        return ("legacy" if case["legacy"] else "default") + ":" + ks + clock
 
     def describe(self, case, obs):
         return {"subsystem": "legacy" if case["legacy"] else "default", "specs": [s["str"] for s in case["specs"]],
                 "startup": case["startup"], "shutdown": case["shutdown"], "bare": case["noargs"],
                 "base_utc": str(from_us(case["base_utc"])), "horizon_s": case["horizon"],
+                "wall_clock": {"slew_ppm": case.get("ppm", 0), "steps_at_elapsed_s_by_s": [[a / 1e6, d / 1e6] for a, d in case.get("steps", [])]},
+                "wall_at_run": [str(from_us(w)) for w in obs.get("walls", [])][:12],
                 "runs": [[str(from_us(u)), k if isinstance(k, str) else str(from_us(k))] for u, k, _t in obs["runs"]][:12],
                 "n_calls": len(obs["calls"]), "log": obs.get("errors")}
 
